@@ -14,6 +14,7 @@ import Ajson.Proofs.WFMove
 import Ajson.Proofs.Frame
 import Ajson.Proofs.History
 import Ajson.Proofs.Sides
+import Ajson.Proofs.CloneSound
 import Ajson.Model.Decode
 
 namespace Ajson.Props.C05
@@ -94,6 +95,12 @@ theorem C05_any_history_of_a_parsed_document (data : Bytes) (v : Spec.STree) (hp
       Struct (es.foldl Edit.run H) ∧ Acyc (es.foldl Edit.run H) := by
   obtain ⟨H, hu, hs, ha⟩ := acyc_unmarshal data v hp
   exact ⟨H, hu, fun es hn => let r := history_sound es H hs ha hn; ⟨r.1, r.2.1⟩⟩
+
+/-- … and `Clone()` may be mixed in anywhere: any history of edit requests and clones, each addressed to any nodes that exist at
+that moment (the copies made earlier included), leaves a sound acyclic heap -/
+theorem C05_any_history_with_clones (ss : List Step) (h : Heap) (hs : Struct h) (ha : Acyc h) (hv : ValidSteps h ss) :
+    Struct (ss.foldl Step.run h) ∧ Acyc (ss.foldl Step.run h) :=
+  let r := steps_sound ss h hs ha hv; ⟨r.1, r.2.1⟩
 
 /-- **everything not addressed is unchanged — for whole histories**: when the nodes in play fall into two sides that do not point at
 each other (`Closed`: parents and children of a side stay on that side — e.g. different documents, a detached subtree and the rest,
